@@ -85,6 +85,7 @@ def run_vector(v):
     tr['synth'] = {'h': False, 'got': [], 'bgot': [], 'exc': '',
                    'shift': 0, 'sgot': []}
     tr['dt64'] = {'h': False, 'got': [], 'exc': ''}
+    tr['cfbounds'] = {'h': False, 'got': [], 'exc': ''}
     kind = v['kind']
     try:
         if kind == 'cf':
@@ -95,6 +96,16 @@ def run_vector(v):
             tv.units = '%s since %s' % (v['unit'], v['refstr'])
             if v['cal'] is not None and v['calattr']:
                 tv.calendar = v['cal']
+            if v.get('cfb'):
+                # CF cell bounds: rows [t_i, t_i+1], the last cell one unit
+                # long; the bounds variable has the units of the time
+                # variable and (as usual) no calendar attribute of its own
+                vals = [w + q / 4. for w, q in zip(v['w'], v['q'])]
+                f.createDimension('nv', 2)
+                tb = f.createVariable('time_bounds', 'd', ('time', 'nv'))
+                tb[:, 0] = vals
+                tb[:, 1] = vals[1:] + [vals[-1] + 1]
+                tb.units = tv.units
         elif kind == 'tflag':
             n = len(v['dates'])
             f.createDimension('TSTEP', n)
@@ -125,6 +136,14 @@ def run_vector(v):
         tr['res'] = 'raised'
         tr['exc'] = '%s: %s' % (type(ex).__name__, str(ex)[:100])
         return tr
+    tr['cfbounds'] = {'h': False, 'got': [], 'exc': ''}
+    if kind == 'cf' and v.get('cfb'):
+        try:
+            tr['cfbounds'] = {'h': True, 'exc': '', 'got': [
+                civil(t) for t in f.getTimes(bounds=True)]}
+        except Exception as ex:
+            tr['cfbounds']['exc'] = '%s: %s' % (type(ex).__name__,
+                                                str(ex)[:100])
     # the numpy form of the same instants: getTimes(datetype='datetime64[us]')
     tr['dt64'] = {'h': False, 'got': [], 'exc': ''}
     try:
@@ -247,7 +266,8 @@ def gen_vectors(rnd, tier):
         vs.append({'kind': 'cf', 'cal': cal or 'standard',
                    'calattr': cal is not None, 'unit': unit, 'ref': list(r),
                    'tzm': tzm, 'refstr': refstr, 'w': ws, 'q': qs,
-                   'store': store})
+                   'store': store,
+                   'cfb': store == 'd' and rnd.random() < 0.4})
     nio = 700 if tier == 'quick' else 8000
     years = [1999, 2000, 2004, 2011, 2023, 2100]
     for i in range(nio):
@@ -288,6 +308,20 @@ def gen_vectors(rnd, tier):
         base = rnd.choice([0, 24, 8760, 140256, 333333])
         vs.append({'kind': 'tau', 'w': [base + 24 * k for k in range(n)],
                    'q': [rnd.choice([0, 2]) for k in range(n)]})
+    # 365- / 366-day calendars where the library's decoding is right (whole
+    # days, hours or minutes from a 1 January 00:00 reference) with CF cell
+    # bounds, on offsets around the leap days the calendars disagree about
+    for cal in ('noleap', '365_day', 'all_leap', '366_day'):
+        for ry in (1970, 2001, 2003):
+            for unit in ('days', 'hours'):
+                per = 86400 // UNITSEC[unit]
+                for d0 in (58, 59, 60, 424, 1153, 1154, 1155):
+                    refstr, r, tzm = spell((ry, 1, 1, 0, 0, 0), 'dHMS')
+                    vs.append({'kind': 'cf', 'cal': cal, 'calattr': True,
+                               'unit': unit, 'ref': list(r), 'tzm': tzm,
+                               'refstr': refstr,
+                               'w': [(d0 + k) * per for k in range(3)],
+                               'q': [0, 0, 0], 'store': 'd', 'cfb': True})
     for i, v in enumerate(vs):
         v['tid'] = i + 1
     return vs
